@@ -340,3 +340,62 @@ def split_rmw(db):
                     seen.add(k)
                     out.append((key, i1, i2, reads[(a2.region, a2.field)][0], a2, lock))
     return out, stats
+
+
+def submit_then_write(db, constructors, region_pred):
+    """[(ctx key, transmit call, lockset, write access, lockset)]: in a frame that runs concurrently with the receiver, a call that submits a message is
+    followed (in CFG order) by a write to tracked state - in the frame itself or below a later call - and no lock is held exclusively at both points.
+    The answer to the message can then be processed in between, and the late write overwrites what the answer recorded (lost update)."""
+    E = db.E
+    P = db.w.P
+    by_ctx = defaultdict(list)
+    for a in db.accesses:
+        by_ctx[a.ctx].append(a)
+    memo = {}
+
+    def below(key, stack=()):
+        if key in memo:
+            return memo[key]
+        if key in stack:
+            return []
+        out = list(by_ctx.get(key, ()))
+        c = E.ctxs.get(key)
+        if c is not None:
+            for (ci, ck, ls) in c.calls:
+                if (c.fn.name, ci.id) in db.st_edges:
+                    continue
+                out += below(ck, stack + (key,))
+        memo[key] = out
+        return out
+    out = []
+    seen = set()
+    n = 0
+    for key in db.labels:
+        c = E.ctxs.get(key)
+        if c is None:
+            continue
+        f = c.fn
+        txs = [(ci, ls) for (ci, ck, ls) in c.calls if ci.callee in P.functions and (ci.callee in constructors or rules.call_reaches(P, ci, set(constructors)))]
+        if not txs:
+            continue
+        n += 1
+        later = []
+        # only stores of the frame itself: a write below a later call belongs to another command of a composite routine (start-up sequence, initial
+        # values), which this frame-local rule cannot relate to the earlier submit
+        for a in by_ctx.get(key, ()):
+            if a.mode == "w" and region_pred(a):
+                later.append((a.inst, a.ls, a))
+        for (t, ls1) in txs:
+            for (pt, ls2, wa) in later:
+                if pt.id == t.id:
+                    continue
+                if not rules.exists_path(f, t, lambda x, pt=pt: x.id == pt.id, None):
+                    continue
+                if _excl(ls1) & _excl(ls2):
+                    continue
+                k = (f.name, t.id, wa.region, wa.field)
+                if k in seen:
+                    continue
+                seen.add(k)
+                out.append((key, t, ls1, pt, ls2, wa))
+    return out, n
